@@ -2,4 +2,5 @@ CONSTANTS Dirs = {0, 1, 2, 3}  DotDir = 3  Names = {"a", "b", "sp", "uni", "dot"
           MaxFiles = 2  WithEnv = TRUE  WithSingle = TRUE
 SPECIFICATION RSpec
 INVARIANTS TypeOK OneToOne NothingElseWritten InputsUntouched ErrorsNamed Isolation
+PROPERTY PickForms
 CHECK_DEADLOCK FALSE
